@@ -32,6 +32,7 @@ import (
 	"fmt"
 	"go/token"
 	"go/types"
+	"path/filepath"
 	"sort"
 	"strings"
 
@@ -54,6 +55,7 @@ type Result struct {
 	Classes []string
 	Edges   []Edge
 	Funcs   int
+	Guards  *Guards // write sites of the write discipline (guards.go), from the same SSA program and call graph
 }
 
 type set map[string]bool
@@ -209,6 +211,7 @@ type analysis struct {
 	stable   map[*ssa.Global]bool // package-level bool variables never stored to outside package initialisation
 	assume   map[*ssa.Global]bool // the value assumed for them in the current dataflow run
 	callOnly map[*ssa.Parameter]bool
+	root     string // absolute path of the module root (for relative file names)
 }
 
 var formatters = map[string]bool{"String": true, "Error": true, "MarshalJSON": true, "MarshalText": true, "LogValue": true, "GoString": true, "Format": true}
@@ -723,6 +726,9 @@ func Analyze(dir string, tags []string) (*Result, error) {
 	all := ssautil.AllFunctions(prog)
 	cg := vta.CallGraph(all, cha.CallGraph(prog))
 	a := &analysis{prog: prog, cg: cg, info: map[key]*fnInfo{}, edges: map[[2]string]string{}, boxed: map[*ssa.Function][]*ssa.Function{}}
+	if abs, err := filepath.Abs(dir); err == nil {
+		a.root = abs
+	}
 	a.stable = map[*ssa.Global]bool{}
 	stored := map[*ssa.Global]bool{}
 	for fn := range all {
@@ -830,6 +836,7 @@ func Analyze(dir string, tags []string) (*Result, error) {
 		}
 		return res.Edges[i].To < res.Edges[j].To
 	})
+	res.Guards = a.guards(fns)
 	return res, nil
 }
 
